@@ -1200,7 +1200,9 @@ pub fn c13(cx: &Ctx) -> Report {
                 }
                 if let Some(c) = &o.cmp {
                     r.transitions += 1;
-                    match (c, pcmp(a, b)) {
+                    // the inner type's own `Ord`: for ulib::FBox that is the IEEE total order, NOT its PartialOrd
+                    let inner_ord = if d.inner == Inner::FBox { Some(a.as_f32().total_cmp(&b.as_f32())) } else { pcmp(a, b) };
+                    match (c, inner_ord) {
                         (Ok(x), Some(y)) if *x == y => {}
                         (other, w) => r.violate(mkviol("C13", i, d, "Ord", format!("{} ? {}", a.show(), b.show()), format!("{w:?}"), format!("{other:?}"), "cmp-differs")),
                     }
@@ -1219,7 +1221,14 @@ pub fn c13(cx: &Ctx) -> Report {
                     r.transitions += 1;
                     // std: `max` returns the second argument unless the first is greater; `min` the first unless the second is less
                     let pc = pcmp(a, b);
-                    let want = [if pc == Some(std::cmp::Ordering::Greater) { a.clone() } else { b.clone() }, if pc == Some(std::cmp::Ordering::Greater) { b.clone() } else { a.clone() }];
+                    let want = if d.inner == Inner::FBox {
+                        // an inner type whose PartialOrd and Ord disagree: whatever std's provided methods do with that,
+                        // the newtype must do the same - ask the inner type itself
+                        let (x, y) = (ulib::FBox(a.as_f32()), ulib::FBox(b.as_f32()));
+                        [Val::f32(Ord::max(x, y).0), Val::f32(Ord::min(x, y).0)]
+                    } else {
+                        [if pc == Some(std::cmp::Ordering::Greater) { a.clone() } else { b.clone() }, if pc == Some(std::cmp::Ordering::Greater) { b.clone() } else { a.clone() }]
+                    };
                     match mm {
                         Ok(x) if *x == want => {}
                         other => r.violate(mkviol("C13", i, d, "Ord::max / Ord::min", format!("{} , {}", a.show(), b.show()), format!("[{}, {}]", want[0].show(), want[1].show()), format!("{other:?}").chars().take(200).collect(), "max-min-differ")),
@@ -1251,7 +1260,7 @@ pub fn c13(cx: &Ctx) -> Report {
                 r.violate(mkviol("C13", i, d, "HashMap::get(borrowed form)", format!("{} keys", stored_of.len()), "every key found".into(), format!("{res:?}"), "borrow-lookup-fails"));
             }
         }
-        if let Some(res) = s.btree_keys(&stored_of) {
+        if let Some(res) = s.btree_keys(&stored_of).filter(|_| d.inner != Inner::FBox) {
             r.evaluations += 1;
             r.hist("BTreeMap", 1);
             let mut want = stored_of.clone();
